@@ -13,7 +13,7 @@ import tempfile
 import time
 from fractions import Fraction
 
-VERIF = '/verif'
+VERIF = os.environ.get('VERIF_ROOT') or os.path.dirname(os.path.dirname(os.path.abspath(__file__)))   # /verif, or a snapshot of it (vp run)
 COQ = os.path.join(VERIF, 'coq')
 REPO = '/repo'
 NS = 'SX'
